@@ -20,7 +20,7 @@ RULE = ("kinds: enum (all indices 0..C(n,k)-1 through the real get_combination_a
         "recording or adversarial stub rng: triples distinct, in range, complete when max_combos >= C(n,3)). "
         "Non-trivial: C(n,k) >= 2 and index in range (enum: C(n,k) >= 2; use: n_thetas >= 3).")
 THEOREMS = {
-    "C15_model_is_source_loops": "round-1 link, kept: the model's three loops equal, iteration by iteration, the loop bodies / conditions py2coq re-reads from generate_combination_at_sorted_index (Generated/SrcArith.v); subsumed by the whole-function link below",
+    "C15_model_is_source_loops": "round-1 link, kept: the model's three loops equal, iteration by iteration, the loop bodies / conditions py2coq re-reads from generate_combination_at_sorted_index (Generated/SrcArithC15.v); subsumed by the whole-function link below",
     "C15_model_is_source_generate_combination_at_sorted_index_any_n": "the Gallina translation of the WHOLE generator generate_combination_at_sorted_index regenerated from /repo's scoring/gaussian_dbal.py on this run (Generated/SrcUnrank.v: the product loop over zip(range(n, n-k, -1), range(1, k+1)), `for k in range(k, 0, -1)` with the loop variable shadowing the parameter, the `while current_index - n_ck > index` loop on an explicit fuel parameter, every // and % checked = ZeroDivisionError tag 8, `yield n`) equals the model unrank index n (Z.to_nat k) for ALL integers index, n, k and every fuel > n + 1, wherever the model's own fuel is not exhausted",
     "C15_model_is_source_generate_combination_at_sorted_index": "the same with the model-fuel hypothesis discharged by C15_fuel_never_exhausted: for every n >= 0, EVERY index (in range or not), every integer k (k <= 0 yields nothing) and every fuel > n + 1 the translated generator = unrank, including the ZeroDivisionError cases",
     "C15_model_is_source_get_combination_at_sorted_index": "the translated wrapper get_combination_at_sorted_index (tuple(...) of the translated generator) = unrank under the same hypotheses",
